@@ -361,6 +361,69 @@ def prefixes(role):
     }
 
 
+class _FullDisk(object):
+    """A file whose every write fails (device full)."""
+
+    def __init__(self, exc):
+        self._exc = exc
+
+    def write(self, data):
+        raise self._exc
+
+    writelines = write
+
+    def seek(self, *a):
+        return 0
+
+    def tell(self):
+        return 0
+
+    def read(self, *a):
+        return b''
+
+    def close(self):
+        pass
+
+
+def run_storage_failures(ctx):
+    """The message cannot be received for a LOCAL reason - the application's get_file() fails, or writing the data set
+    to the file it gave fails (OSError family: directory gone, descriptor limit, device full; or any other error).  The
+    association cannot go on; this is an abort by the provider like any other: A-ABORT PDU to the peer, A-P-ABORT to the
+    user, ARTIM, Sta13 - modelled as Evt19 at that PDU."""
+    import errno
+    from pynetdicom2 import asceprovider
+    from pydicom import uid
+    c = convs
+    ctxs = {1: asceprovider.PContextDef(1, uid.UID(c.VERIF_UID), uid.UID(c.IMPLICIT)),
+            3: asceprovider.PContextDef(3, uid.UID(c.STORE_UID), uid.UID(c.IMPLICIT))}
+    errors = {'ENOSPC': OSError(errno.ENOSPC, 'No space left on device'), 'ENOENT': FileNotFoundError(errno.ENOENT, 'No such file or directory'),
+              'EMFILE': OSError(errno.EMFILE, 'Too many open files'), 'ValueError': ValueError('closed file'),
+              'RuntimeError': RuntimeError('storage back end is down')}
+    p = lambda spec: {'a': 'pdu', 'spec': spec}        # noqa
+    for role in ('acceptor', 'requestor'):
+        est = prefixes(role)['Sta6']
+        for ename, exc in sorted(errors.items()):
+            for where in ('get_file', 'write'):
+                def cb(context, command_set, where=where, exc=exc):
+                    if where == 'get_file':
+                        raise exc
+                    return _FullDisk(exc), 0
+                hist = est + [p(PART1), p(PART2), p(PART3), {'a': 'tick', 'dt': 2.0}, {'a': 'close'}]
+                fail_at = len(est) + (1 if where == 'get_file' else 2)
+                model_hist = list(hist)
+                model_hist[fail_at] = {'a': 'raw', 'data': c.UNKNOWN_PDU}
+                case = {'role': role, 'storage_failure': [ename, where]}
+                ctx.case(('storage-failure', role, ename, where), True, labels=['storage-failure', 'where=' + where, 'error=' + ename],
+                         sample={'role': role, 'error': ename, 'raised by': where})
+                pred, model = H.predict(role, model_hist)
+                try:
+                    sim, obs, pre = H.observe(role, hist, store_in_file=frozenset([c.STORE_UID]), get_file_cb=cb, accepted_contexts=ctxs)
+                    H.compare_racing(PROP, role, hist, pred, sim, obs, case)
+                except Violation as v:
+                    ctx.fail(v.key + ':storage-failure', v.what + ' [%s raised by %s while a C-STORE data set is being received: '
+                             'provider abort (AA-8) expected]' % (ename, where), case)
+
+
 def alphabet_after(role, prefix):
     pred, model = H.predict(role, prefix)
     started = role == 'acceptor' or any(a['a'] == 'user' for a in prefix)
@@ -381,7 +444,7 @@ def run(ctx):
                 'continuing / last P-DATA fragments of messages received into a file (runs with own maximum 48 or 0) or in memory, unknown PDU type, peer close, each arriving after quiescence '
                 'or back-to-back, 2 s, 6 s and 11.5 s time advances, every user primitive legal in the model state incl. '
                 '1- and 3-fragment P-DATA requests}, plus Hypothesis random walks up to 30 steps with generated PDU '
-                'contents; the peer pausing inside a PDU (first bytes only, rest later or never) with every '
+                'contents; local storage failures (get_file / write raising 5 kinds of error) while a data set is received; the peer pausing inside a PDU (first bytes only, rest later or never) with every '
                 'primitive / time advance / close meanwhile, from every prefix; every step compared with the executable PS3.8 model; non-trivial = the history reaches '
                 'Sta6 or exercises an abnormal action (AA-*, AR-8); distinct by (role, history)' % depth)
     ctx.assumptions = ['reference machine transcribed from PS3.8 Table 9-10 (vf/ulmodel.py)',
@@ -436,6 +499,7 @@ def run(ctx):
         parallel(ctx, shard_walks, [{'n': 10000} for _ in range(16)])
     else:
         parallel(ctx, shard_walks, [{'n': 60} for _ in range(8)])
+    run_storage_failures(ctx)
     cells = ctx.extra.get('cells', set())
     ctx.extra['cells'] = len(cells)
     ctx.extra['cells_note'] = 'distinct cells of Table 9-10 exercised by some history (of 123 defined)'
@@ -444,4 +508,12 @@ def run(ctx):
 
 def replay(case):
     quiet_warnings()
+    if case.get('storage_failure'):
+        from ..common import Ctx
+        sub = Ctx('C05', 'quick', 1)
+        run_storage_failures(sub)
+        for key, ent in sorted(sub.failures.items()):
+            if ent['case'].get('storage_failure') == case['storage_failure'] and ent['case']['role'] == case['role']:
+                raise Violation(key, ent['what'], ent['case'])
+        return
     run_history(case['role'], case['history'], case.get('max_pdu', 65536))
